@@ -24,7 +24,9 @@ def giet_havoc(S, L):
     base = L.self.fields["openElements"].prefix
     k = S.int("kept_l")
     S.assume(z3.And(k.z >= 0, k.z <= z3.Length(base)))
-    L.self.fields["openElements"] = ListV([], prefix=z3.Extract(base, 0, k.z))
+    lst = ListV([], prefix=z3.Extract(base, 0, k.z))
+    lst.view = (base, k.z)
+    L.self.fields["openElements"] = lst
     L.name = S.str("name_l")
 
 
